@@ -276,6 +276,16 @@ theorem stuck_message_blocks_later_spaces :
   simp only [update, handleBuffer, handleBufferGo, msgLoop_eq_len]
   decide
 
+/-- outside the hypothesis of `crypto_any_order`: a retransmission that cuts the stream at OTHER points than the
+    first transmission (RFC 9000 §13.3 allows it) overlaps the consumed prefix, is never consumed, and the stream
+    stalls: stream `01 00 00 02 07 07` captured as (0, `01 00 00 02`) and (2, `00 02 07 07`) -/
+theorem rechunked_retransmission_stalls :
+    let r := run never State.init
+      [((false, .initial), ⟨0, 0, [1, 0, 0, 2], 4⟩), ((false, .initial), ⟨1, 2, [0, 2, 7, 7], 4⟩)]
+    r.2 = [] ∧ (r.1.ks (false, .initial)).off = 4 ∧ (r.1.ks (false, .initial)).fb.length = 1 := by
+  simp only [run, update, handleBuffer, handleBufferGo, msgLoop_eq_len]
+  decide
+
 /-! ### non-vacuity -/
 
 -- a stream of two messages (bodies 1 and 2 bytes), cut into three fragments across the message boundary, delivered
@@ -289,5 +299,21 @@ example : Delivery [[1, 0, 0], [1, 9, 2, 0], [0, 2, 7, 7]]
   · intro a ha b hb hid
     simp only [List.mem_cons, List.not_mem_nil, or_false] at ha hb
     rcases ha with rfl | rfl | rfl | rfl <;> rcases hb with rfl | rfl | rfl | rfl <;> simp_all
+
+-- … and what the model makes of that delivery: nothing until the first fragment arrives, then both messages
+example :
+    (run never State.init ([⟨10, 7, [0, 2, 7, 7], 4⟩, ⟨11, 3, [1, 9, 2, 0], 4⟩, ⟨12, 0, [1, 0, 0], 3⟩,
+      ⟨13, 3, [1, 9, 2, 0], 4⟩].map fun f => ((true, PT.handshake), f))).2 = [[1, 0, 0, 1, 9], [2, 0, 0, 2, 7, 7]] := by
+  simp only [List.map, run, update, handleBuffer, handleBufferGo, msgLoop_eq_len]
+  decide
+example : NoEmptyTail [1, 0, 0, 1, 9, 2, 0, 0, 2, 7, 7] := by
+  intro h
+  obtain ⟨_, m, hm, hl⟩ := h
+  have hf : frameHs [1, 0, 0, 1, 9, 2, 0, 0, 2, 7, 7] = [[1, 0, 0, 1, 9], [2, 0, 0, 2, 7, 7]] := by
+    rw [frameHs_eq_impl]; simp only [implFrame, rem, msgLoop_eq_len]; decide
+  rw [hf] at hm
+  simp at hm
+  subst hm
+  simp at hl
 
 end TLX.Props.C02Crypto
